@@ -75,6 +75,7 @@ class Prop(object):
     WORKERS = 16
     GATES = {}            # label -> minimal count (quick tier); scaled x4 in thorough
     MIN_NONTRIVIAL = 20
+    WATCHDOG_IS_VIOLATION = False   # C03 / C13 claim termination: a case that runs into the watchdog is reported
 
     def selftest(self):
         pass
@@ -175,6 +176,15 @@ def run_case(prop, case, acc, keep_sample=True):
     try:
         res = prop.check(case)
     except _Timeout:
+        if prop.WATCHDOG_IS_VIOLATION:
+            res = Result()
+            res.fail(("hang",), "the case did not finish within %s s of wall-clock time" %
+                     os.environ.get("VERIF_CASE_TIMEOUT", "30"))
+            acc.add(case, res, keep_sample)
+            acc.extra["watchdog_expiries"] = acc.extra.get("watchdog_expiries", 0) + 1
+            if acc.extra["watchdog_expiries"] >= 3:
+                raise _Abort()
+            return res
         acc.harness_errors.append(("watchdog", canon(case)[:3000]))
         acc.extra["watchdog_expiries"] = acc.extra.get("watchdog_expiries", 0) + 1
         if acc.extra["watchdog_expiries"] >= 3:
@@ -261,7 +271,8 @@ def _worker(args):
         try:
             test()
         except _Abort:
-            acc.harness_errors.append(("worker stopped after three watchdog expiries", ""))
+            if not prop.WATCHDOG_IS_VIOLATION:
+                acc.harness_errors.append(("worker stopped after three watchdog expiries", ""))
             break
         except Exception:
             acc.harness_errors.append(("hypothesis run failed: " + traceback.format_exc()[-3000:], ""))
@@ -326,6 +337,8 @@ def fails_with(prop, case, bucket):
     signal.alarm(30)
     try:
         res = prop.check(case)
+    except _Timeout:
+        return prop.WATCHDOG_IS_VIOLATION and bucket == ("hang",)
     except BaseException:
         return False
     finally:
